@@ -35,7 +35,7 @@ ASSUMPTIONS = [
 ]
 PROBES = ["remove_0d", "remove_with_interfaces", "remove_highest_dim", "remove_last_subdomain", "replace_by_copy", "replace_1d_refined", "replace_0d",
           "replace_mortar_sides", "add_several_at_once", "codim0_interface", "codim2_interface", "two_subdomains_same_dim", "only_0d_left_boundaries_raises",
-          "rejected_existing_grid", "rejected_existing_interface", "rejected_codim3", "meshed_start", "empty_start", "ge_5_subdomains", "replace_both_ends_in_one_call", "meshed_start_3d", "observation_sparse", "observation_end", "pair_list_reused_by_caller", "twin_instance_used_in_between"]
+          "rejected_existing_grid", "rejected_existing_interface", "rejected_codim3", "meshed_start", "empty_start", "ge_5_subdomains", "replace_both_ends_in_one_call", "meshed_start_3d", "observation_sparse", "observation_end", "pair_list_reused_by_caller", "twin_instance_used_in_between", "meshed_start_codim0_pair", "replace_member_of_codim0_pair", "container_copied"]
 
 
 def new_grid(dim: int):
@@ -60,20 +60,43 @@ def key(g):
     return (-g.dim, g.id)
 
 
+def line_grid(n: int, x0: float) -> pp.Grid:
+    g = pp.CartGrid(np.array([n]), np.array([1.0]))
+    g.nodes[0] += x0
+    g.compute_geometry()
+    return g
+
+
 def run_history_c24(ch, tr: Trace) -> None:
     crossing = False
+    codim0_primary: dict = {}
     with ch.span("config"):
         meshed = ch.flag()
         if meshed:
-            kind = ch.choice([0, 1, 2, 0, 1, 2, 0, 1, 2, 0, 1, 2, 3, 3, 3, 4])  # 3-d starts are ~20x dearer: 1 in 4 meshed runs
-            if kind == 0:
+            kind = ch.choice([0, 1, 2, 0, 1, 2, 0, 1, 2, 0, 1, 2, 3, 3, 3, 4, 5, 5])  # 3-d starts are ~20x dearer: 1 in 4 meshed runs
+            if kind == 5:
+                # two 1-d grids of equal dimension joined end to end by a 0-d mortar with a real face map (co-dimension 0)
+                g_a, g_b = line_grid(2, 0.0), line_grid(2, 1.0)
+                pt = pp.PointGrid(np.array([1.0, 0.0, 0.0]))
+                pt.compute_geometry()
+                fm = sps.csc_matrix((np.ones(1), (np.array([0]), np.array([g_a.num_faces - 1]))), shape=(g_b.num_faces, g_a.num_faces))
+                i0 = pp.MortarGrid(0, {MortarSides.LEFT_SIDE: pt}, fm, codim=0)
+                mdg = pp.MixedDimensionalGrid()
+                mdg.add_subdomains([g_a, g_b])
+                mdg.add_interface(i0, (g_b, g_a) if ch.flag() else (g_a, g_b), fm)
+                mdg.compute_geometry()
+                codim0_primary[i0] = g_a  # the mortar's projections treat g_a as primary; only that role can be replaced, once
+                tr.probe("meshed_start_codim0_pair")
+            elif kind == 0:
                 fr = [np.array([[0, 2], [1, 1]])]
             elif kind == 1:
                 fr = [np.array([[0, 2], [1, 1]]), np.array([[1, 1], [0, 2]])]
                 crossing = True
             elif kind == 2:
                 fr = [np.array([[0, 1], [1, 1]])]
-            if kind <= 2:
+            if kind == 5:
+                pass
+            elif kind <= 2:
                 mdg = pp.meshing.cart_grid(fr, [2, 2])
             else:
                 # 3-d start: two or three mutually orthogonal planes through the cube -> subdomains of all four dimensions
@@ -112,6 +135,7 @@ def run_history_c24(ch, tr: Trace) -> None:
         if not (force or obs.due()):
             return
         sfx = "_after_rejected_add_interface" if poisoned[0] else ""
+        verify_copies(where)
         exp_s = sorted(subs, key=key)
         got_s = real_call("subdomains()", lambda: mdg.subdomains())
         if len(got_s) != len(exp_s) or any(a is not b for a, b in zip(got_s, exp_s)):
@@ -319,6 +343,10 @@ def run_history_c24(ch, tr: Trace) -> None:
         out = []
         for g in subs:
             mine = [i for i, (a, b) in pair.items() if a is g or b is g]
+            if mine and all(i in codim0_primary for i in mine):
+                if all(codim0_primary[i] is g for i in mine):
+                    out.append((g, "line_codim0"))
+                continue
             if all(i in real_intf for i in mine):
                 if not mine:
                     out.append((g, "copy"))
@@ -333,7 +361,13 @@ def run_history_c24(ch, tr: Trace) -> None:
         if not cands:
             return
         g, how = ch.choice(cands)
-        if how == "copy":
+        if how == "line_codim0":
+            g_new = line_grid(ch.rng(2, 5), float(g.nodes[0].min()))
+            for i in [i for i, (a, b) in pair.items() if a is g or b is g]:
+                del codim0_primary[i]  # replacing the other role (update_secondary across equal dimensions) is not implemented
+                codim0_primary[i] = None
+            tr.probe("replace_member_of_codim0_pair")
+        elif how == "copy":
             g_new = g.copy()
             tr.probe("replace_by_copy")
         else:
@@ -443,6 +477,41 @@ def run_history_c24(ch, tr: Trace) -> None:
             return
         raise Violation("invalid_call_rejected", f"invalid call of kind {['existing_grid', 'existing_interface', 'codim3'][kind]} was accepted")
 
+    copies: list = []  # (copy of the container, snapshot of the model when it was taken)
+
+    def verify_copies(where):
+        """A copy() is a container of its own: what happens to the original afterwards must not show in it."""
+        for cp, s_subs, s_pair, s_bg in copies:
+            got = real_call("copy.subdomains()", lambda: cp.subdomains())
+            if len(got) != len(s_subs) or any(a is not b for a, b in zip(got, s_subs)):
+                raise Violation("subdomains_listed_once_sorted", f"after {where}: a copy taken earlier now lists {[lab(g) for g in got]}, it held {[lab(g) for g in s_subs]}", "copy_changed_with_original")
+            got_i = real_call("copy.interfaces()", lambda: cp.interfaces())
+            if len(got_i) != len(s_pair) or any(a is not b for a, b in zip(got_i, sorted(s_pair, key=key))):
+                raise Violation("interfaces_listed_once_sorted", f"after {where}: a copy taken earlier now lists other interfaces than it held", "copy_changed_with_original")
+            for g, bg in s_bg.items():
+                now = real_call("copy.subdomain_to_boundary_grid", lambda: cp.subdomain_to_boundary_grid(g))
+                if now is not bg:
+                    raise Violation("boundary_grid_per_subdomain", f"after {where}: in a copy taken earlier {lab(g)} now has boundary grid {now}, it had {bg}", "copy_changed_with_original")
+            n_pos = sum(1 for g in s_subs if g.dim > 0)
+            if n_pos:
+                bgs = real_call("copy.boundaries()", lambda: cp.boundaries())
+                if len(bgs) != n_pos:
+                    raise Violation("boundary_grid_per_subdomain", f"after {where}: a copy taken earlier lists {len(bgs)} boundary grids for {n_pos} positive-dimensional subdomains", "copy_changed_with_original")
+
+    def op_copy():
+        if len(copies) >= 2 or not subs:
+            return
+        cp = real_call("copy()", lambda: mdg.copy())
+        copies.append((cp, sorted(subs, key=key), dict(pair), {g: mdg.subdomain_to_boundary_grid(g) for g in subs}))
+        tr.probe("container_copied")
+        tr.op("copy", "ok", len(subs), changing=False)
+        if ch.flag(1, 3) and len(subs) > 1:
+            # ... and the copy is a container the caller may change: the original must not notice
+            victim = ch.choice(sorted(subs, key=key))
+            cp2 = mdg.copy()
+            cp2.remove_subdomain(victim)
+            check("removing a subdomain from a copy of the container")
+
     twin = [None]
 
     def op_twin_noise():
@@ -460,6 +529,7 @@ def run_history_c24(ch, tr: Trace) -> None:
 
     ops = [
         Op("twin_noise", 1, op_twin_noise),
+        Op("copy", 1, op_copy),
         Op("add_subdomains", 6, op_add, core=True),
         Op("add_interface", 5, op_add_interface, enabled=lambda: len(subs) >= 2, core=True),
         Op("remove_subdomain", 4, op_remove, enabled=lambda: bool(subs), core=True),
